@@ -36,9 +36,9 @@ def run(chk):
     rule_gate(chk)
     rule_eval(chk)
     rule_cond_eval(chk)
-    rule_defined(chk)
     import c08
-    c08.rule_defined_eval(chk, prefix="C11.defined/model")
+    evaluated = c08.rule_defined_eval(chk, prefix="C11.defined/model")
+    rule_defined(chk, shape=not evaluated)
 
 
 # ------------------------------------------------------------------ fsm
@@ -726,11 +726,17 @@ def rule_cond_eval(chk):
     return True
 
 
-def rule_defined(chk):
+def rule_defined(chk, shape=True):
+    """What `defined` is rewritten to, and where it is an operator at all, is decided by C11.defined/model (apply_macros
+    read as a table, with and without apply_defined); the shape rules about find_single_macro / apply_single_macro are
+    its fallback. Which callers pass apply_defined = true stays a rule about the call sites."""
     f = chk.facts
     fs = chk.anchor("C11.anchor/find_single_macro", f.fn("find_single_macro", PP), "find_single_macro")
     asm = chk.anchor("C11.anchor/apply_single_macro", f.fn("apply_single_macro", PP), "apply_single_macro")
-    if fs:
+    if not shape:
+        for k in ("site", "only-in-if", "keyword", "value"):
+            chk.ob("C11.defined/" + k, True, "decided by the evaluated apply_macros (C11.defined/model/*)", where(asm) if asm else PP, trivial=True)
+    if fs and shape:
         cfg = M.Cfg(fs)
         sites = [i for i, j, s in cfg.stmts(lambda s: s.get("r") == "Agg" and short(s.get("adt", "")) == "FoundMacro" and s.get("variant") == "Defined")]
         chk.ob("C11.defined/site", bool(sites), "FoundMacro::Defined construction", where(fs), trivial=True)
@@ -747,8 +753,8 @@ def rule_defined(chk):
         chk.ob("C11.defined/keyword", "defined" in lits, "keyword literal %s" % sorted(lits), where(fs))
     if asm:
         # generated token: if exists { LiteralInt(1) } else { LiteralInt(0) }
-        ok = False
-        for n in F.exprs(asm["thir"], "If"):
+        ok = not shape
+        for n in (F.exprs(asm["thir"], "If") if shape else ()):
             th = F.adt_ctor(F.tail(n["then"]))
             el = F.adt_ctor(F.tail(n.get("else", {}))) if "else" in n else None
             if th and el and th[1] == "LiteralInt" and el[1] == "LiteralInt":
